@@ -13,7 +13,7 @@ real WishboneCSRBridge. CSR side:
 import random
 
 from vmon import env  # noqa: F401
-from vmon.simkit import Top, Mon, simulate, bits, biased_bits
+from vmon.simkit import Top, Mon, simulate, bits, biased_bits, reset_plan, drive_reset
 
 from amaranth_soc import csr
 from amaranth_soc.csr import action
@@ -108,10 +108,13 @@ def run_case(case):
         sel = {"all": (1 << ratio) - 1, "rand": bits(rng, ratio), "one": 1 << rng.randrange(ratio), "none": 0}[selc]
         return {"adr": adr, "sel": sel, "we": rng.getrandbits(1), "dat_w": biased_bits(rng, wdw)}
 
+    resets = reset_plan(case["cycles"])
+
     async def bench(ctx):
         idle_left = 0
         for c in range(case["cycles"]):
             mon.cycle = c
+            drive_reset(ctx, c in resets)
             # ---------------- initiator (protocol-abiding)
             if st["req"] is None:
                 if idle_left > 0:
@@ -188,6 +191,15 @@ def run_case(case):
                     st["req"], st["t"] = None, None
                     st["last_ack_cycle"] = c
                     idle_left = rng.choice([0, 0, 0, 1, 2, 5])
+            if c in resets:
+                # warm reset at this clock edge: the bridge (and the registers behind it) start over; the initiator
+                # keeps holding its request, which the bridge therefore sees as a transfer starting in the next cycle
+                mon.count("warm_resets")
+                if st["req"] is not None:
+                    st["t"], st["lanes"] = c + 1, {}
+                    mon.count("warm_resets_during_a_transfer")
+                for rid in st["rw_model"]:
+                    st["rw_model"][rid] = 0
             # stub target: a unique value one cycle after a read strobe, zero otherwise
             if not real:
                 if g["r_stb"]:
